@@ -150,6 +150,27 @@ def analyse(F, s, classes):
                         break
             if x not in ts.cursors:
                 break
+    # from here on every stored result uses one spelling of the bookkeeping (also in the facts and operands of the sites)
+    def _cs(x):
+        return canon_state_ts(ts, x)
+
+    def _cfacts(fs):
+        out_ = {}
+        for a_, v_ in fs.items():
+            g_ = _cs(("gamma", a_, ("c", "bool", 1), ("c", "bool", 0))) if isinstance(a_, tuple) else None
+            if isinstance(g_, tuple) and g_[0] == "gamma" and g_[1] != a_ and {g_[2], g_[3]} == {("c", "bool", 1), ("c", "bool", 0)}:
+                out_[g_[1]] = v_ if g_[2] == ("c", "bool", 1) else (not v_)
+            else:
+                out_[_cs(a_) if isinstance(a_, tuple) else a_] = v_
+        return out_
+    if ts.cursors or ts.counters:
+        for lab, (fn, r) in ts.methods.items():
+            r["ret"] = _cs(r["ret"])
+            for k in list(r["heap"]):
+                r["heap"][k] = _cs(r["heap"][k])
+            for site in r["exec"].sites:
+                site["facts"] = _cfacts(site["facts"])
+                site["operands"] = {k_: (_cs(v_) if isinstance(v_, tuple) and k_ not in ("array", "len") else v_) for k_, v_ in site["operands"].items()}
     # lockstep: one cursor and one counter, each advanced exactly once and unconditionally by every next()
     if len(ts.cursors) >= 1 and len(ts.counters) >= 1:
         for cfield in ts.cursors:
@@ -184,6 +205,9 @@ def _is_wrap(t, c, pf):
     if t[1] == a:
         return (t[2], t[3]) == ((inc, cu(0)) if pol else (cu(0), inc))
     a, pol = lit(("<=", pp, inc))  # the inverted test `c + 1 >= period`
+    if t[1] == a:
+        return (t[2], t[3]) == ((cu(0), inc) if pol else (inc, cu(0)))
+    a, pol = lit(("==", inc, pp))  # `c + 1 == period` / `c + 1 != period`
     if t[1] == a:
         return (t[2], t[3]) == ((cu(0), inc) if pol else (inc, cu(0)))
     return False
@@ -233,7 +257,8 @@ def _try_cursor(ts, x, posts, P, usize_state):
                 ok = False
                 for pf in P:
                     pp_ = ("pre", "self." + pf)
-                    if has_fact(conds, ("<", inc, pp_)) or has_fact(conds, ("<=", pp_, inc), want=False):
+                    if has_fact(conds, ("<", inc, pp_)) or has_fact(conds, ("<=", pp_, inc), want=False) or has_fact(conds, ("==", inc, pp_), want=False):
+                        # (the last: c + 1 != period, which under c < period is c + 1 < period)
                         ok = True
                         pf_used = pf
                 if ok:
@@ -316,6 +341,10 @@ def canon_state(F, struct, t):
         n == period  (as a branch condition) -> !(n < period)
     Each is an identity under those invariants, which the classification establishes by induction over all methods."""
     ts = all_structs(F)[0].get(struct)
+    return canon_state_ts(ts, t)
+
+
+def canon_state_ts(ts, t):
     if ts is None or not isinstance(t, tuple):
         return t
     P = list(ts.len_fields)
@@ -348,6 +377,10 @@ def canon_state(F, struct, t):
                 # atom true (n == period): arm taken is y[2] if pol else y[3]
                 eq_arm, ne_arm = (y[2], y[3]) if pol else (y[3], y[2])
                 y = mk_gamma(("<", n, pp), ne_arm, eq_arm)
+            elif a[0] == "==" and pp in a[1:] and any(isinstance(v, tuple) and v[0] == "+" and v[2] == cu(1) and v[1] in curs for v in a[1:]):
+                inc = a[1] if a[2] == pp else a[2]   # c + 1 == period  <=>  !(c + 1 < period)  under c < period
+                eq_arm, ne_arm = (y[2], y[3]) if pol else (y[3], y[2])
+                y = mk_gamma(("<", inc, pp), ne_arm, eq_arm)
         memo[x] = y
         return y
     return go(t)
